@@ -60,3 +60,148 @@ Proof.
   destruct ep as [|c0 r0]; [congruence|]. rewrite Hparse. rewrite Htarget. cbn [bind].
   destruct (tree a) as [[|]|]; [exact Hu|congruence|exact Hu].
 Qed.
+
+(* ---------- a targeted append within one tree: save(path, root, mode = append, emdpath = "root/a/b") merges the runtime
+   branch at a/b into the file's branch at a/b, and nothing off that path changes *)
+From Emd Require Import Proofs.P05 Proofs.PUnion.
+
+Lemma validate_names_enc n : ok_tree n -> forall p k acc, rwalk n p = Some k -> validate_names (enc n) p acc = VInside (acc ++ p).
+Proof.
+  induction n as [c nm t r m ks IH] using rnode_ind'. intros Hok p k acc Hw. destruct p as [|x q]; [cbn; rewrite app_nil_r; reflexivity|].
+  cbn [rwalk rkids] in Hw. destruct (rget ks x) as [kid|] eqn:E; [|discriminate].
+  pose proof (lookup_enc _ Hok [x] kid) as Hl. cbn [rwalk rkids] in Hl. rewrite E in Hl. specialize (Hl eq_refl).
+  rewrite enc_eq in Hl |- *. cbn [validate_names]. cbn [lookup] in Hl.
+  destruct (get (shallow_links (RN c nm t r m ks) ++ enc_kids (rkids (RN c nm t r m ks))) x) as [o|]; [|discriminate].
+  cbn [lookup] in Hl. injection Hl as ->. rewrite (enc_eq kid) at 1. cbn [is_group].
+  apply ok_tree_inv in Hok. destruct Hok as (_ & _ & Hks). cbn [rkids] in Hks. apply rget_in in E. destruct E as (Hin & _).
+  rewrite Forall_forall in IH, Hks. rewrite (IH kid Hin (Hks kid Hin) q k (acc ++ [x]) Hw). rewrite <- app_assoc. reflexivity.
+Qed.
+
+Lemma parse_emdpath_join r p : r <> "" -> Forall (fun s => no_slash s = true) (r :: p) ->
+  parse_emdpath (join_slash (r :: p)) = (r, join_slash p).
+Proof.
+  intros Hr Hns. unfold parse_emdpath.
+  assert (match join_slash (r :: p) with String c0 rest => if Ascii.eqb c0 "/"%char then rest else join_slash (r :: p) | EmptyString => join_slash (r :: p) end = join_slash (r :: p)) as ->.
+  { inversion Hns as [|? ? Hrns _]; subst. destruct r as [|c0 r0]; [congruence|]. cbn [no_slash] in Hrns. apply andb_true_iff in Hrns. destruct Hrns as (Hc & _).
+    apply negb_true_iff in Hc. destruct p; cbn [join_slash String.append]; rewrite Hc; reflexivity. }
+  rewrite (split_join (r :: p)); [reflexivity|discriminate|exact Hns].
+Qed.
+
+Theorem targeted_append_within_a_tree c0 m root p km kn md tr :
+  In md appendmode -> tr <> Some false ->
+  rcls m = CRoot -> rname root = rname m -> rmds root = [] -> ok_tree m ->
+  rwalk m p = Some km -> rwalk root p = Some kn -> compat km kn ->
+  Forall (fun s => s <> "" /\ no_slash s = true) (rname m :: p) ->
+  exists f', append_existing root [] (WA md tr (Some (join_slash (rname m :: p)))) md (whole_file c0 m) = Ok f' /\
+             lookup f' (rname m :: p) = Some (enc (merge km kn)) /\
+             (forall q, is_pref q (rname m :: p) = false -> is_pref (rname m :: p) q = false -> lookup f' q = lookup (whole_file c0 m) q).
+Proof.
+  intros Hmd Htr Hc Hname Hmds Hok Hwm Hwr Hcompat Hnames.
+  assert (Forall (fun s => no_slash s = true) (rname m :: p)) as Hns by (eapply Forall_impl; [|exact Hnames]; cbn; intros a Ha; apply Ha).
+  assert (Forall (fun s => s <> "") (rname m :: p)) as Hnn by (eapply Forall_impl; [|exact Hnames]; cbn; intros a Ha; apply Ha).
+  inversion Hnn as [|? ? Hrne Hnnp]; subst. inversion Hns as [|? ? _ Hnsp]; subst.
+  assert (mem md appendovermode = false) as Hao by (destruct Hmd as [<-|[<-|[<-|[]]]]; reflexivity).
+  assert (ok_tree km) as Hokm.
+  { clear -Hok Hwm. revert m km Hok Hwm. induction p as [|x q IH]; intros m km Hok Hwm; [injection Hwm as <-; exact Hok|].
+    cbn [rwalk] in Hwm. destruct (rget (rkids m) x) as [kid|] eqn:E; [|discriminate]. apply rget_in in E. destruct E as (Hin & _).
+    apply ok_tree_inv in Hok. destruct Hok as (_ & _ & Hks). rewrite Forall_forall in Hks. apply (IH kid km (Hks kid Hin) Hwm). }
+  assert (lookup (whole_file c0 m) (rname m :: p) = Some (enc km)) as Hl.
+  { unfold whole_file. cbn [lookup]. rewrite get_first. apply lookup_enc; assumption. }
+  destruct (update_at_spec (rname m :: p) (whole_file c0 m) (enc km) (append_branch false kn) (enc (merge km kn)) Hl (append_is_union km kn Hokm Hcompat))
+    as (f' & Hu & Hl' & Hfr & _).
+  exists f'. split; [|split; [exact Hl'|exact Hfr]].
+  unfold append_existing. cbn [rwalk emdpath tree].
+  rewrite (rootgroups_whole c0 m Hc). rewrite Hname. cbn [mem]. rewrite String.eqb_refl.
+  assert (join_slash (rname m :: p) <> "") as Hjne.
+  { destruct (rname m) as [|c1 r1] eqn:E; [congruence|]. destruct p; cbn [join_slash String.append]; discriminate. }
+  assert ((match join_slash (rname m :: p) with "" => true | String _ _ => false end) = false) as -> by (destruct (join_slash (rname m :: p)); [congruence|reflexivity]).
+  rewrite (parse_emdpath_join (rname m) p Hrne Hns). rewrite Hao.
+  (* the target *)
+  assert (emd_target (whole_file c0 m) (rname m) (join_slash p) = Ok (rname m :: p)) as Ht.
+  { unfold emd_target, whole_file. cbn [olinks]. rewrite get_first. unfold validate_treepath.
+    destruct p as [|x q].
+    - cbn [join_slash]. change (split_slash "") with [""]. cbn [remove_first_empty String.eqb]. cbn [validate_names app]. reflexivity.
+    - rewrite (split_join (x :: q)) by (try discriminate; exact Hnsp). rewrite (remove_first_empty_none _ Hnnp).
+      rewrite (validate_names_enc m Hok (x :: q) km [] Hwm). reflexivity. }
+  rewrite Ht. cbn [bind]. rewrite Hmds.
+  assert (in_child (rname m) (append_root_metadata false []) (whole_file c0 m) = Ok (whole_file c0 m)) as ->.
+  { unfold in_child, whole_file. cbn [update_at]. rewrite get_first. cbn [update_at append_root_metadata bind set]. rewrite String.eqb_refl. reflexivity. }
+  cbn [bind tl]. rewrite Hwr. unfold ow_and_branch.
+  destruct tr as [[|]|]; [cbn [bind]; exact Hu|congruence|cbn [bind]; exact Hu].
+Qed.
+
+(* ---------- save(path, node, mode = append) for an inner node, no emdpath *)
+Lemma ok_tree_walk m : ok_tree m -> forall p k, rwalk m p = Some k -> ok_tree k.
+Proof.
+  intros Hok p. revert m Hok. induction p as [|x q IH]; intros m Hok k Hw; [injection Hw as <-; exact Hok|].
+  cbn [rwalk] in Hw. destruct (rget (rkids m) x) as [kid|] eqn:E; [|discriminate]. apply rget_in in E. destruct E as (Hin & _).
+  apply ok_tree_inv in Hok. destruct Hok as (_ & _ & Hks). rewrite Forall_forall in Hks. apply (IH kid (Hks kid Hin) k Hw).
+Qed.
+
+Theorem inner_node_append_merges_at_its_own_path c0 m root tp km data md tr :
+  In md appendmode -> tr <> Some false ->
+  rcls m = CRoot -> rname root = rname m -> rmds root = [] -> ok_tree m ->
+  tp <> [] -> rwalk m tp = Some km -> rwalk root tp = Some data -> compat km data ->
+  exists f', append_existing root tp (WA md tr None) md (whole_file c0 m) = Ok f' /\
+             lookup f' (rname m :: tp) = Some (enc (merge km data)) /\
+             (forall q, is_pref q (rname m :: tp) = false -> is_pref (rname m :: tp) q = false -> lookup f' q = lookup (whole_file c0 m) q).
+Proof.
+  intros Hmd Htr Hc Hname Hmds Hok Htp Hwm Hwr Hcompat.
+  assert (mem md appendovermode = false) as Hao by (destruct Hmd as [<-|[<-|[<-|[]]]]; reflexivity).
+  pose proof (ok_tree_walk m Hok tp km Hwm) as Hokm.
+  assert (lookup (whole_file c0 m) (rname m :: tp) = Some (enc km)) as Hl.
+  { unfold whole_file. cbn [lookup]. rewrite get_first. apply lookup_enc; assumption. }
+  destruct (update_at_spec (rname m :: tp) (whole_file c0 m) (enc km) (append_branch false data) (enc (merge km data)) Hl (append_is_union km data Hokm Hcompat))
+    as (f' & Hu & Hl' & Hfr & _).
+  exists f'. split; [|split; [exact Hl'|exact Hfr]].
+  unfold append_existing. rewrite Hwr. cbn [emdpath tree]. rewrite Hao.
+  rewrite (rootgroups_whole c0 m Hc). rewrite Hname. cbn [mem]. rewrite String.eqb_refl. rewrite Hmds.
+  assert (in_child (rname m) (append_root_metadata false []) (whole_file c0 m) = Ok (whole_file c0 m)) as ->.
+  { unfold in_child, whole_file. cbn [update_at]. rewrite get_first. cbn [update_at append_root_metadata bind set]. rewrite String.eqb_refl. reflexivity. }
+  cbn [bind]. destruct tp as [|x q]; [congruence|].
+  assert (get (olinks (whole_file c0 m)) (rname m) = Some (enc m)) as -> by (unfold whole_file; cbn [olinks]; apply get_first).
+  rewrite (validate_names_enc m Hok (x :: q) km [] Hwm). cbn [app].
+  destruct tr as [[|]|]; [|congruence|exact Hu].
+  unfold ow_and_branch. cbn [bind]. exact Hu.
+Qed.
+
+Lemma validate_names_beyond n : ok_tree n -> forall q pk x acc, rwalk n q = Some pk -> get (olinks (enc pk)) x = None ->
+  validate_names (enc n) (q ++ [x]) acc = VBeyond (acc ++ q).
+Proof.
+  induction n as [c nm t r m ks IH] using rnode_ind'. intros Hok q pk x acc Hw Hg. destruct q as [|y q'].
+  - injection Hw as <-. cbn [app]. rewrite enc_eq in Hg |- *. cbn [validate_names olinks] in *. rewrite Hg. rewrite app_nil_r. reflexivity.
+  - cbn [rwalk rkids] in Hw. destruct (rget ks y) as [kid|] eqn:E; [|discriminate].
+    pose proof (lookup_enc _ Hok [y] kid) as Hl. cbn [rwalk rkids] in Hl. rewrite E in Hl. specialize (Hl eq_refl).
+    rewrite enc_eq in Hl |- *. cbn [app validate_names]. cbn [lookup] in Hl.
+    destruct (get (shallow_links (RN c nm t r m ks) ++ enc_kids (rkids (RN c nm t r m ks))) y) as [o|]; [|discriminate].
+    cbn [lookup] in Hl. injection Hl as ->. rewrite (enc_eq kid) at 1. cbn [is_group].
+    apply ok_tree_inv in Hok. destruct Hok as (_ & _ & Hks). cbn [rkids] in Hks. apply rget_in in E. destruct E as (Hin & _).
+    rewrite Forall_forall in IH, Hks. rewrite (IH kid Hin (Hks kid Hin) q' pk x (acc ++ [y]) Hw Hg). rewrite <- app_assoc. reflexivity.
+Qed.
+
+Theorem inner_node_one_beyond_the_file_is_written_whole c0 m root q x pk data md :
+  In md (appendmode ++ appendovermode) ->
+  rcls m = CRoot -> rname root = rname m -> rmds root = [] -> ok_tree m ->
+  rwalk m q = Some pk -> get (olinks (enc pk)) x = None ->
+  rwalk root (q ++ [x]) = Some data -> rname data = x -> ok_tree data ->
+  exists f', append_existing root (q ++ [x]) (WA md (Some true) None) md (whole_file c0 m) = Ok f' /\
+             lookup f' (rname m :: q) = Some (G (oattrs (enc pk)) (olinks (enc pk) ++ [(x, enc data)])) /\
+             (forall p, is_pref p (rname m :: q) = false -> is_pref (rname m :: q) p = false -> lookup f' p = lookup (whole_file c0 m) p).
+Proof.
+  intros Hmd Hc Hname Hmds Hok Hwm Hg Hwr Hdn Hokd.
+  assert (lookup (whole_file c0 m) (rname m :: q) = Some (enc pk)) as Hl.
+  { unfold whole_file. cbn [lookup]. rewrite get_first. apply lookup_enc; assumption. }
+  assert ((do g1 <- write_single_node data (enc pk); in_child (rname data) (write_tree data) g1) = Ok (G (oattrs (enc pk)) (olinks (enc pk) ++ [(x, enc data)]))) as Hw.
+  { rewrite (enc_eq pk) at 1 2. rewrite (new_child_written_whole data _ _ Hokd); [rewrite Hdn; rewrite (enc_eq pk); reflexivity|].
+    rewrite Hdn. rewrite <- (enc_links' pk). apply get_none_notin. exact Hg. }
+  destruct (update_at_spec (rname m :: q) (whole_file c0 m) (enc pk) (fun g => do g1 <- write_single_node data g; in_child (rname data) (write_tree data) g1) _ Hl Hw) as (f' & Hu & Hl' & Hfr & _).
+  exists f'. split; [|split; [exact Hl'|exact Hfr]].
+  unfold append_existing. rewrite Hwr. cbn [emdpath tree].
+  rewrite (rootgroups_whole c0 m Hc). rewrite Hname. cbn [mem]. rewrite String.eqb_refl. rewrite Hmds.
+  assert (forall ao, in_child (rname m) (append_root_metadata ao []) (whole_file c0 m) = Ok (whole_file c0 m)) as Hid.
+  { intros ao. unfold in_child, whole_file. cbn [update_at]. rewrite get_first. cbn [update_at append_root_metadata bind set]. rewrite String.eqb_refl. reflexivity. }
+  rewrite Hid. cbn [bind].
+  destruct (q ++ [x]) as [|y q0] eqn:Eq; [destruct q; discriminate|]. rewrite <- Eq.
+  assert (get (olinks (whole_file c0 m)) (rname m) = Some (enc m)) as -> by (unfold whole_file; cbn [olinks]; apply get_first).
+  rewrite (validate_names_beyond m Hok q pk x [] Hwm Hg). cbn [app]. exact Hu.
+Qed.
